@@ -20,7 +20,8 @@ import gen_c07
 THEOREMS = ['C07_sound', 'C07_unit', 'C07_unit_nautilus', 'C07_inner_outer', 'C07_union_encloses', 'C07_any_of',
             'C07_ell_sample', 'C07_frame_roundtrip', 'C07_ell_encloses', 'C07_quadform_div']
 TIE_THEOREMS = ['C07_tie_formulas']
-MODULE = [('NautilusVerif.Properties.C07', THEOREMS), ('NautilusVerif.Properties.C07Tie', TIE_THEOREMS)]
+MODULE = [('NautilusVerif.Properties.C07', THEOREMS), ('NautilusVerif.Properties.C07Tie', TIE_THEOREMS),
+          ('NautilusVerif.Properties.CoreTie', ['Core_tie_unionContains', 'Core_tie_nautilusContains', 'Core_tie_neuralContains', 'Core_tie_nautilusSample'])]
 FILES = ['nautilus/bounds/basic.py', 'nautilus/bounds/union.py', 'nautilus/bounds/nautilus.py', 'nautilus/bounds/neural.py',
          'nautilus/bounds/periodic.py']
 NN = dict(hidden_layer_sizes=(12, 6), max_iter=150)
@@ -304,7 +305,7 @@ def run(chk):
     text, notes = gen_c07.generate(common.REPO)
     chk.extra['source_digest'] = common.source_digest(FILES)
     chk.extra['translator'] = notes
-    chk.prove(MODULE, None, {'NautilusVerif/Generated/C07.lean': text})
+    chk.prove(MODULE, None, {'NautilusVerif/Generated/C07.lean': text, 'NautilusVerif/Generated/CoreSrc.lean': __import__('gen_core').generate(common.REPO)[0]})
     if chk.tier == 'thorough':
         chk.leanchecker([m for m, _ in MODULE])
     C = cases(chk.tier, chk.seed)
